@@ -3,8 +3,9 @@
 // read-only operations, and the 2.x table API read functions.
 //
 //   autocommit                 -> 1|0   sqlite3_get_autocommit of the library's connection
-//   fullobs [verbose]          -> api=<h> uuid=<h> raw=<h> tables=<db.tbl:h,...>   (verbose: the texts;
-//                                 api = every observer's answer on every crate / track, UUID masked)
+//   fullobs [verbose]          -> api=<h> held=<h> uuid=<h> raw=<h> tables=<db.tbl:h,...>   (verbose: the texts;
+//                                 api = every observer's answer on every crate / track obtained from the
+//                                 database, UUID masked; held = the same through the handles the script holds)
 //   observers [prefix]         -> one entry per read-only operation (of database, crate, track; on every
 //                                 crate / track of the current state), each applied twice:
 //                                 <name>:<shapes>:<changes-delta>:<stable 0|1>:<files same|differs|->
@@ -13,6 +14,7 @@
 //                                 c commit, k rollback, s savepoint; '-' = no statement)
 //                                 plus raw=<same|differs> n=<crates>+<tracks> answers=<h>
 //   tableapi.reads [prefix]    -> the same for the 2.x table API (on-disk 2.x libraries)
+//   tableapi.touch <n>         -> table-API setters on the columns the high-level API never writes (every track)
 //   staticops                  -> database_exists / load_database / create_or_load_database (existing library)
 //                                 / engine_library::exists as observers of the directory; the SHA-256 of the
 //                                 directory is taken around every single one
@@ -423,6 +425,31 @@ std::string api_text()
     return o;
 }
 
+std::string held_text()
+{
+    std::string o;
+    // through the handles the script itself holds (the very objects the calls of
+    // the history were made on — state kept in a handle shows here and nowhere
+    // else); handles of removed crates / tracks are skipped
+    for (auto& kv : S.crates)
+    {
+        auto& c = kv.second;
+        if (safe([&] { return std::string(c.is_valid() ? "1" : "0"); }) != "1") continue;
+        o += "held crate " + kv.first + ":";
+        for (auto& ob : crate_observers()) o += std::string(" ") + ob.first + "=" + safe([&] { return ob.second(c); });
+        o += "\n";
+    }
+    for (auto& kv : S.tracks)
+    {
+        auto& t = kv.second;
+        if (safe([&] { return std::string(t.is_valid() ? "1" : "0"); }) != "1") continue;
+        o += "held track " + kv.first + ":";
+        for (auto& ob : track_observers()) o += std::string(" ") + ob.first + "=" + safe([&] { return ob.second(t); });
+        o += "\n";
+    }
+    return o;
+}
+
 // raw dump of every table of every attached database, through the C API
 std::vector<std::pair<std::string, std::string>> raw_tables(sqlite3* h)
 {
@@ -571,12 +598,13 @@ DJV_CMD(autocommit, "autocommit")
 DJV_CMD(fullobs, "fullobs")
 {
     bool verbose = a.size() > 1 && a[1] == "verbose";
-    std::string api, uuid;
+    std::string api, held, uuid;
     std::vector<std::pair<std::string, std::string>> tabs;
     {
         quiet_guard q;
         g_mask_uuid = true;
         api = api_text();
+        held = held_text();
         g_mask_uuid = false;
         uuid = safe([] { return hs(DB().uuid()); });
         tabs = raw_tables(main_handle());
@@ -590,12 +618,12 @@ DJV_CMD(fullobs, "fullobs")
     if (verbose)
     {
         // single line: newlines -> " | "
-        std::string t = api + raw;
+        std::string t = api + held + raw;
         std::string o;
         for (char ch : t) o += ch == '\n' ? std::string(" | ") : std::string(1, ch);
         return o;
     }
-    return "api=" + hs(api) + " uuid=" + uuid + " raw=" + hs(raw) + " tables=" + per;
+    return "api=" + hs(api) + " held=" + hs(held) + " uuid=" + uuid + " raw=" + hs(raw) + " tables=" + per;
 }
 
 DJV_CMD(dirsha, "dirsha")
@@ -777,6 +805,228 @@ DJV_CMD(c10_dir, "c10.dir")
     return "";
 }
 
+// ---------------------------------------------------------------- directory shapes (C16, C10)
+// c16.probe <shape> <entry> <schema-1.x> <schema-2.x>
+//   <shape> = N0 (no directory at all) or three letters <m><p><d>:
+//       m : m.db            a absent | v valid (1.x library of <schema-1.x>, one root crate) | z zero bytes | g garbage
+//       p : p.db            a | v | z | g
+//       d : Database2/      a absent | e present and empty | v Database2/m.db valid (2.x library of <schema-2.x>,
+//                           one root crate) | z zero bytes | g garbage
+//   <entry> = a static entry point that takes a directory (see dir_entries below); it is applied twice, every
+//   object it returns is destroyed again; around the two applications a recursive listing of the directory
+//   (every directory and file, size, SHA-256) is taken.
+//   -> before=<h> after=<h> a1=<answer> a2=<answer> | <listing before> | <listing after>
+// c16.entries -> the names of the entry points, comma separated
+namespace
+{
+namespace fs = std::filesystem;
+
+std::string file_sha(const std::string& path, uint64_t* size)
+{
+    sha256 sh;
+    std::ifstream in(path, std::ios::binary);
+    std::vector<char> buf(1 << 16);
+    uint64_t sz = 0;
+    while (in)
+    {
+        in.read(buf.data(), (std::streamsize)buf.size());
+        auto n = in.gcount();
+        sh.update(buf.data(), (size_t)n);
+        sz += (uint64_t)n;
+    }
+    if (size) *size = sz;
+    return sh.hex();
+}
+
+// every directory and file below `dir`, sorted: "<rel>/" for a directory, "<rel>:<size>:<sha256 prefix>" for a file
+std::string dir_listing(const std::string& dir)
+{
+    if (!fs::exists(dir)) return "(no directory)";
+    std::vector<std::string> items;
+    for (auto& p : fs::recursive_directory_iterator(dir))
+    {
+        std::string rel = p.path().string().substr(dir.size() + 1);
+        if (p.is_directory())
+            items.push_back(rel + "/");
+        else
+        {
+            uint64_t sz = 0;
+            auto h = file_sha(p.path().string(), &sz);
+            items.push_back(rel + ":" + std::to_string((unsigned long long)sz) + ":" + h.substr(0, 16));
+        }
+    }
+    std::sort(items.begin(), items.end());
+    std::string o;
+    for (auto& i : items) o += (o.empty() ? "" : ",") + i;
+    return o.empty() ? "(empty)" : o;
+}
+
+void write_file(const std::string& path, const std::string& content)
+{
+    std::ofstream out(path, std::ios::binary | std::ios::trunc);
+    out.write(content.data(), (std::streamsize)content.size());
+}
+
+std::string garbage_bytes()
+{
+    std::string g = "this is not an SQLite database file; ";
+    while (g.size() < 5000) g += g;
+    return g.substr(0, 4099);
+}
+
+// templates written by the real creators, once per (process, schema)
+const std::string& template_dir(e::engine_schema sch, const char* marker)
+{
+    static std::map<std::string, std::string> made;
+    auto key = name_of(sch);
+    auto it = made.find(key);
+    if (it != made.end()) return it->second;
+    auto d = new_dir() + "/tmpl";
+    fs::create_directories(d);
+    {
+        auto db = e::create_database(d, sch);
+        auto c = db.create_root_crate(marker);
+        dj::track_snapshot ts;
+        ts.relative_path = std::string("../music/") + marker + ".mp3";
+        ts.title = std::string(marker);
+        auto t = db.create_track(ts);
+        c.add_track(t);
+    }
+    g_wrap.handles.clear();
+    return made.emplace(key, d).first->second;
+}
+
+void place(const std::string& dst, char how, const std::string& valid_src)
+{
+    switch (how)
+    {
+        case 'a': break;
+        case 'v': fs::copy_file(valid_src, dst); break;
+        case 'z': write_file(dst, ""); break;
+        case 'g': write_file(dst, garbage_bytes()); break;
+        default: throw bad_command{"shape letter"};
+    }
+}
+
+std::string crates_and_tracks(dj::database db)
+{
+    std::string s = ids(cids(db.crates()), true) + ids(tids(db.tracks()), true);
+    for (auto& t : db.tracks()) s += hs(wr_snapshot(t.snapshot()));
+    for (auto& c : db.crates()) s += hexstr(c.name()) + ids(tids(c.tracks()), true);
+    db.verify();
+    return s + " " + hs(db.uuid()) + " " + hexstr(db.version_name());
+}
+
+using dir_entry = std::pair<const char*, std::function<std::string(const std::string&)>>;
+const std::vector<dir_entry>& dir_entries()
+{
+    static const std::vector<dir_entry> v{
+        {"engine.database_exists", [](const std::string& d) { return std::string(e::database_exists(d) ? "1" : "0"); }},
+        {"engine.load_database",
+         [](const std::string& d)
+         {
+             e::engine_schema sch{};
+             auto db = e::load_database(d, sch);
+             return "loaded " + name_of(sch);
+         }},
+        {"engine.load_database(1-arg)",
+         [](const std::string& d)
+         {
+             auto db = e::load_database(d);
+             return std::string("loaded");
+         }},
+        {"engine.load_and_observe", [](const std::string& d) { return crates_and_tracks(e::load_database(d)); }},
+        {"engine.create_or_load_database(1.x)",
+         [](const std::string& d)
+         {
+             bool created = false;
+             e::engine_schema sch{};
+             auto db = e::create_or_load_database(d, e::engine_schema::schema_1_18_0_os, created, sch);
+             return std::string(created ? "created" : "loaded " + name_of(sch));
+         }},
+        {"engine.create_or_load_database(2.x)",
+         [](const std::string& d)
+         {
+             bool created = false;
+             e::engine_schema sch{};
+             auto db = e::create_or_load_database(d, e::engine_schema::schema_2_21_2, created, sch);
+             return std::string(created ? "created" : "loaded " + name_of(sch));
+         }},
+        {"engine.create_or_load_database(3-arg)",
+         [](const std::string& d)
+         {
+             bool created = false;
+             auto db = e::create_or_load_database(d, e::engine_schema::schema_2_21_2, created);
+             return std::string(created ? "created" : "loaded");
+         }},
+        {"v2.engine_library.exists", [](const std::string& d) { return std::string(ev2::engine_library::exists(d) ? "1" : "0"); }},
+        {"v2.engine_library.load",
+         [](const std::string& d)
+         {
+             auto lib = ev2::engine_library::load(d);
+             return "loaded " + name_of(lib.schema());
+         }},
+        {"v2.engine_library.load_and_observe",
+         [](const std::string& d)
+         {
+             auto lib = ev2::engine_library::load(d);
+             lib.verify();
+             auto inf = lib.information().get();
+             auto n = lib.track().all_ids().size() + lib.playlist().all_ids().size();
+             return "loaded " + name_of(lib.schema()) + " " + lib.directory().substr(lib.directory().size() - 3) + " " +
+                    hs(inf.uuid) + " " + std::to_string(n) + " " + crates_and_tracks(lib.database());
+         }},
+    };
+    return v;
+}
+}  // namespace
+
+DJV_CMD(c16_entries, "c16.entries")
+{
+    std::string o;
+    for (auto& en : dir_entries()) o += (o.empty() ? "" : ",") + std::string(en.first);
+    return o;
+}
+
+DJV_CMD(c16_probe, "c16.probe")
+{
+    const std::string& shape = a.at(1);
+    const std::string& entry = a.at(2);
+    auto s1 = schema_of(a.at(3));
+    auto s2 = schema_of(a.at(4));
+    const dir_entry* en = nullptr;
+    for (auto& x : dir_entries())
+        if (entry == x.first) en = &x;
+    if (!en) throw bad_command{"entry"};
+    reset_all();
+    handles_guard hg;
+    quiet_guard q;
+    std::string dir = new_dir() + "/lib";
+    if (shape != "N0")
+    {
+        if (shape.size() != 3) throw bad_command{"shape"};
+        const auto& t1 = template_dir(s1, "L-marker");
+        const auto& t2 = template_dir(s2, "D-marker");
+        fs::create_directories(dir);
+        place(dir + "/m.db", shape[0], t1 + "/m.db");
+        place(dir + "/p.db", shape[1], t1 + "/p.db");
+        if (shape[2] != 'a')
+        {
+            fs::create_directories(dir + "/Database2");
+            if (shape[2] != 'e') place(dir + "/Database2/m.db", shape[2], t2 + "/Database2/m.db");
+        }
+    }
+    auto l0 = dir_listing(dir);
+    auto a1 = safe([&] { return en->second(dir); });
+    auto a2 = safe([&] { return en->second(dir); });
+    auto l1 = dir_listing(dir);
+    for (auto& c : a1)
+        if (c == ' ') c = '_';
+    for (auto& c : a2)
+        if (c == ' ') c = '_';
+    return "before=" + hs(l0) + " after=" + hs(l1) + " a1=" + a1 + " a2=" + a2 + " | " + l0 + " | " + l1;
+}
+
 // ---------------------------------------------------------------- 2.x table API
 namespace
 {
@@ -789,6 +1039,41 @@ std::string oi(const std::optional<T>& v)
 }
 std::string od(const std::optional<double>& v) { return fo(v); }
 }  // namespace
+
+// tableapi.touch <n>: through the table API of the on-disk 2.x library, give every track values in the columns
+// the high-level API never writes (label, remixer, uri, streaming source, played flags, ...), derived from <n>,
+// so that the table-API getters are observed on non-default rows too.
+DJV_CMD(tableapi_touch, "tableapi.touch")
+{
+    if (S.dir.empty() || !is_v2()) throw bad_command{"needs an on-disk 2.x library"};
+    auto n = parse_i64(a.at(1));
+    handles_guard hg;
+    quiet_guard q;
+    auto lib = ev2::engine_library::load(S.dir);
+    auto tt = lib.track();
+    size_t touched = 0;
+    for (auto id : tt.all_ids())
+    {
+        auto k = n + id;
+        tt.set_label(id, k % 3 ? std::make_optional("label " + std::to_string(k)) : std::nullopt);
+        tt.set_remixer(id, k % 2 ? std::make_optional("remixer " + std::to_string(k)) : std::nullopt);
+        tt.set_uri(id, k % 4 ? std::make_optional("file:///music/" + std::to_string(k) + ".mp3") : std::nullopt);
+        tt.set_streaming_source(id, k % 5 ? std::nullopt : std::make_optional(std::string("svc")));
+        tt.set_album_art(id, k % 2 ? std::make_optional("art" + std::to_string(k)) : std::nullopt);
+        tt.set_is_played(id, k % 2 == 0);
+        tt.set_played_indicator(id, k % 3 ? std::make_optional<int64_t>(k * 7919) : std::nullopt);
+        tt.set_is_available(id, k % 4 != 0);
+        tt.set_is_beat_grid_locked(id, k % 3 == 0);
+        tt.set_pdb_import_key(id, k % 7);
+        tt.set_third_party_source_id(id, k % 3 == 1 ? std::make_optional<int64_t>(k) : std::nullopt);
+        tt.set_streaming_flags(id, k % 4);
+        tt.set_explicit_lyrics(id, k % 2 == 1);
+        tt.set_time_last_played(id, k % 2 ? std::make_optional(std::chrono::system_clock::time_point{std::chrono::seconds{1600000000 + k}})
+                                          : std::nullopt);
+        ++touched;
+    }
+    return "tracks=" + std::to_string(touched);
+}
 
 DJV_CMD(tableapi_reads, "tableapi.reads")
 {
